@@ -250,6 +250,7 @@ def run_c07(ctx):
     results = pipeline.run_pipeline(texts, "c07-%s-%d" % (ctx.tier, ctx.seed))
     import checks_selftest as cs
     builds = real_builds(items, results)
+    pending = {}       # signature -> {status: (what, replay, lang)}: decided once every occurrence is known
     d = scratch()
     try:
         for idx, ((prof, t), item) in enumerate(zip(items, results)):
@@ -267,7 +268,31 @@ def run_c07(ctx):
                     continue
                 ctx.count("programs")
                 ok = True
-                real_finding = ctx.finding
+                # Does the target's own toolchain accept the codec of this output?  A line outside my statement templates, or a
+                # typing / scoping rule of mine that objects, is a broken correspondence (T2); it is a demonstrated violation of
+                # C07 only when the real toolchain rejects the output too.  Where there is no toolchain verdict (Lua; Go / Java
+                # without their package options) the template verdict stands.
+                rb0 = builds.get((idx, lang))
+                builds_clean = (rb0 is not None and "runner_error" not in rb0 and not cs.codec_build_errors(lang, ent.get("files") or {}, rb0))
+
+                has_verdict = rb0 is not None and "runner_error" not in rb0
+
+                def real_finding(sig, what, replay=None, found=True, _bc=builds_clean, _hv=has_verdict, _l=lang):
+                    template_level = (sig.startswith(("residue/", "issue/", "incomplete/", "ill-scoped/"))
+                                      or "[residue/" in what or "[issue/" in what or "[incomplete/" in what)
+                    if not found:
+                        status = "no-input"
+                    elif not template_level:
+                        status = "confirmed"          # marker text, missing output, a real build error: the property itself
+                    elif _bc:
+                        status = "clean"              # the toolchain accepts what my templates reject
+                    elif _hv:
+                        status = "confirmed"          # … and rejects it too
+                    else:
+                        status = "unknown"            # no toolchain verdict for this output
+                    slot = pending.setdefault(sig, {})
+                    slot.setdefault(status, (what, replay, _l))
+                    return True
                 if prof != "safe":
                     cause = {"char": "char-scalar-unsupported", "names": "names-not-case-stable", "kw": "field-name-is-keyword",
                              "len": "length-target-not-a-packet", "inl": "inline-name-not-unique"}[prof]
@@ -347,6 +372,21 @@ def run_c07(ctx):
                     ctx.sample({"target": lang, "dsl": t[:200], "verdict": "every line consumed, no marker, scoped, complete"}, 3)
     finally:
         rm(d)
+    for sig in sorted(pending):
+        slot = pending[sig]
+        if "confirmed" in slot:
+            what, replay, _ = slot["confirmed"]
+            ctx.finding(sig, what, replay, True)
+        elif "clean" in slot:
+            what, replay, l = slot["clean"]
+            ctx.finding(sig, what + " — the %s toolchain accepts this output wherever it was built: correspondence T2 (statement templates of tv/%s) broken, "
+                        "no failing input" % (l, l), dict(replay or {}, broken="correspondence T2: tv extractor templates vs the emitted text"), False)
+        elif "unknown" in slot:
+            what, replay, _ = slot["unknown"]
+            ctx.finding(sig, what, replay, True)
+        else:
+            what, replay, _ = slot["no-input"]
+            ctx.finding(sig, what, replay, False)
     if ctx.broken and not ctx.violations:
         ctx.finding("obligation/C07", "; ".join(ctx.broken)[:500], {"broken": ctx.broken}, False)
     ctx.cov.update({"disagreements_checked": ctx.cov.get("programs", 0), "dsl_texts": len(texts),
